@@ -17,7 +17,7 @@ def run(mod, tier, seed, replay=None):
     ok_gen, gen_out = C.regenerate()
     if not ok_gen:
         rep.note("translator failed: " + gen_out[-2000:])
-    ok_build, build_out = C.lake_build([f"FunProps.{prop}", "driver"])
+    ok_build, build_out = C.lake_build([f"FunProps.{m}" for m in C.prop_modules(prop)] + ["driver"])
     names = C.theorem_names(prop)
     obligations = len(names)
     discharged = 0
